@@ -287,6 +287,8 @@ def user_line(rng, marker=None):
         b"/* comment", b"// c", b"# py", b"'''", "grüße éè 中".encode(), b"}}}", b"{{{", b"{{{USE",
         b"a" * rng.choice([10, 300, 5000]), b"/*#~`@$%?+}]>= ", b"<<<PER_STATE_BEGIN>>>", b"return;", b"\\t\\n", b"{ } ; ::",
         b"<<<FOR_BEGIN=A,B>>>", b"<<<FOR_END>>>", b"<<<ELSE>>>",
+        # lines that do NOT contain the USER tag prefix but whose cleaned-up form does (inside the property's quantifier)
+        b"// moved here from the {{{ USER_LOCALS }}} block", b"{{{U SER_X", b"{ { {USER_IMPORTS", b"{{{US/ER_PUBLIC}}}", b"{{{USER\t_X",
     ]
     l = rng.choice(kinds)
     if marker is not None:
